@@ -119,5 +119,106 @@ def md_nested(rng):
 def md_any(rng, maxlines=8):
     r = rng.random()
     if r < 0.08:
-        return md_nested(rng)
-    return md_doc(rng, maxlines) if r < 0.78 else md_noise(rng)
+        d = md_nested(rng)
+    elif r < 0.24:
+        d = md_struct(rng)
+    else:
+        d = md_doc(rng, maxlines) if r < 0.82 else md_noise(rng)
+    if rng.random() < 0.12:
+        d = mutate_ws(rng, d)
+    return d
+
+
+# ---------------------------------------------------------------- syntax-aware slot documents and whitespace mutations
+EXOTIC_BREAKS = ["\x0b", "\x0c", "\x1c", "\x1d", "\x1e", "\x85", " ", " "]     # str.splitlines() splits here; Markdown does not
+
+SLOT = {
+    "L": ["foo", "bar", "HTML", "MAX_PATH_LEN", "a=b=c", "Foo.*", "C_LANG", " ", "\t", "", "x y", "x\ty", "X  Y", "ß", "ẞ", "<b>", "a*b*", "1", "a", "HT", "café", "x\ny", " pad ", "a.b-c"],
+    "T": ["alpha", "beta gamma", "one two three", "<b>x</b>", "a <!-- c > d --> e", "`c`", "*e*", "**s**", "café", "日本 語", "a\x0cb", "a b", "[^1]", "[x]", "a < b", "say \"q\"", "a  b",
+          "tail  ", "back\\slash", "&amp_x;", "a &copy_b; c", "&amp;", "&lt;tag&gt;", "x_y_z", "http://a.b/c", "a@b.cd", "\\&amp;lt;", "\\&copy;", "it's", "100%", "a|b", "$m$", "", " ", "[link](/u)",
+          "![i](/p.png)", "<span a=\"1\">", "~~d~~", "==m==", "^s^", "a*", "_u", "end.", "HTML", "[foo]", "[bar][foo]", ">!s!<", "[r(t)]"],
+    "U": ["/u", "http://example.com/café", "http://e.com/a[1]", "http://e.com/a b", "javascript:x", "x.png", "a&b=\"c\"", "/u%20v", "", "<u>", "./README.md", "/a(b)c", "HTTP://E.F/g", "data:image/png;base64,A",
+          "#frag", "//host/p", "mailto:a@b.c", "/ü"],
+    "C": ["a", "bb", "x \\| y", "`a|b`", "", " ", "a\x0cb", "*e*", "1", "a\\", "<b>", "&amp;", "c c"],
+    "B": ["x = 1;\x0cy = 2", "a\n\nb", "", " ", "   ", "  x  ", "\tx", "a b", "<b>&amp;", "`", "a\\*b", "a\n   b", "*not em*", "&lt;", "x", "line1\nline2", " \n ", "a\x85b", "a\x1cb", "[foo]", "  "],
+    "I": ["", "py", " py ", "py x", "&#32;", "{x}", "py&amp;", "\tpy", "c++", "a\"b"],
+    "W": ["foo", "note", "alpha", "x", "HTML", "warning", "unknown", "toc", "lt", "copy"],
+    "N": ["0", "00", "1", "2", "9", "10", "123456789", "007"],
+    "S": [" ", "  ", "   ", "\t", ""],
+    "Q": [" ", "\t", "", "  ", " \t"],
+    "K": ["", "\n", "\n\n", "\n\n\n"],
+}
+
+SLOT_TEMPLATES = [
+    "*[{L}]: {T}\n\n{T} {L} {T}\n", "*[{L}]: {T}\n*[{L}]: {T}\n\nThe {L} and {L}{K}", "[^{L}]: {T}\n\n{T}[^{L}] {T}\n", "{T}[^{L}] and *x[^{L}]* again[^{L}]\n\n[^{L}]: {T}\n\n[^{L}]: {T}\n",
+    "[{L}]: {U} \"{T}\"\n\n[{T}][{L}] and [{L}]\n", "[{L}]\n\n[{L}]: {U}\n[{L}]: {U}\n", "> {T}\n>{Q}[{L}]: {U}\n\n[{L}]\n", "- {T}\n\n {S}[{L}]: {U}\n\n[{L}]\n",
+    "| {C} | {C} | {C} |\n|:--|:-:|--:|\n| {C} | {C} | {C} |\n| {C} | {C} |\n", "{C} | {C}\n--- | ---\n{C} | {C}\n{C} \\| {C} | {C}\n", "| {C} | {C} |\n|---|---|\n| {C} \\| {C} | {C} |\n| {T} | {T} |\n",
+    "{T}\n| {C} | {C} |\n|---|---|\n| {C} | {C} |\n", "{T}\n{C} | {C}\n---- | -----\n{C} | {C}\n",
+    "{W}\n: {T}\n\n  {T}\n: {T}\n", ": {T}\n: {T}\n", "# {T}\n\n: {T} more\n:   {T}\n",
+    "```{I}\n{B}\n```\n", "~~~{I}\n{B}\n", "> ```\n> {B}\n> ```\n", "- ```\n  {B}\n  ```\n", "```{I}\n{B}{K}", "    {B}\n", "{T} `{B}` {T}\n", "{T} `` {B} `` {T}\n", "> - ~~~\n>   {B}\n>   ~~~\n",
+    "# {T} [{L}]\n\n## {T} <!-- {T} > {T} --> {T}\n\n{T}\n", "# {T}[^{L}]\n\n{T}[^{W}]\n\n[^{L}]: {T}\n\n[^{W}]: {T}\n", "{T}[^{W}]\n\n# {T}[^{L}]\n\n{T}\n\n[^{L}]: {T}\n\n[^{W}]: {T}\n",
+    ".. toc::\n\n# {T}\n\n## {T}\n\n# {T}\n", "```{{toc}}\n```\n\n# {T}\n\n### {T}\n", ".. toc:: {T}\n   :min-level: {N}\n   :max-level: {N}\n\n# {T}\n\n## {T}\n",
+    ".. note:: {T}\n   :class: {T}\n\n   {T}\n", "```{{note}} {T}\n:class: {T}\n\n{T}\n```\n", ".. image:: {U}\n   :alt: {T}\n   :width: {T}\n   :height: {T}\n   :align: {T}\n   :target: {U}\n",
+    ".. figure:: {U}\n   :figwidth: {T}\n   :figclass: {T}\n\n   {T}\n\n   {T}\n", ".. include:: {U}\n", ".. {W}:: {T}\n\n   {T}\n", "```{{{W}}} {T}\n{T}\n```\n",
+    "<{U}>\n", "[{T}]({U} \"{T}\")\n", "![{T}]({U})\n", "[{T}](<{U}> '{T}')\n", "{T} <http://example.com/{L}> {T}\n", "[http://e.com/{L}](<http://e.com/{L}>)\n",
+    "{T}\n{S}{T}\n{S}{T}\n", "{T} `a\n{S}b` {T}\n", "{T} <a\n{S}href='x'> {T}\n", "> {T}\n{S}{T}\n", "- {T}\n{S}{T}\n",
+    "{N}. {T}\n{N}. {T}\n", "{N}) {T}\n\n{N}) {T}\n", "- {T}\n\n  {N}. {T}\n",
+    "[{W}({W})]\n", "${B}$\n", "$$\n{B}\n$$\n", "=={T}== ^{T}^ ~{T}~ ~~{T}~~ ^^{T}^^\n", "- [ ] {T}\n- [x] {T}\n", "&{W};{T} \\&{W}; &amp{T}\n", "{T} http://{L}.com/{L} {T} <{W}@{W}.com>\n",
+    ">! {T}\n>! {T}\n", "{T} >!{T}!< {T}\n", "<div>\n{T}\n</div>\n\n{T}\n", "<pre>\n\n{B}\n\n\n", "{T}\n===\n\n{T}\n---\n", "{T}\\\n{T}  \n{T}\\\\\\\n{T}\n",
+    "> > > > > > {T}\n\n> - {T}\n> - {T}\n>\n> > {T}\n", "- - - - - - {T}\n\n- {T}\n  - {T}\n", "[{L}]: {U}\n", "[{L}]: {U}\n[{W}]: {U} '{T}'\n",
+]
+
+
+def fill(rng, template):
+    out = []
+    i = 0
+    memo = {}
+    while i < len(template):
+        c = template[i]
+        if c == "{":
+            if template.startswith("{{", i):
+                out.append("{"); i += 2; continue
+            j = template.index("}", i)
+            k = template[i + 1:j]
+            if k in memo and k in "LWN" and rng.random() < 0.7:
+                v = memo[k]                # a label / name usually recurs (definition and use)
+            else:
+                v = rng.choice(SLOT[k]); memo[k] = v
+            out.append(v); i = j + 1; continue
+        if c == "}" and template.startswith("}}", i):
+            out.append("}"); i += 2; continue
+        out.append(c); i += 1
+    return "".join(out)
+
+
+def md_struct(rng):
+    """one or two syntax templates with adversarial fillers (labels, cells, code bodies, info strings, urls, numbers)"""
+    d = fill(rng, rng.choice(SLOT_TEMPLATES))
+    if rng.random() < 0.3:
+        d += ("" if d.endswith("\n") else "\n") + rng.choice(["", "\n"]) + fill(rng, rng.choice(SLOT_TEMPLATES))
+    return d
+
+
+def mutate_ws(rng, d):
+    """whitespace mutations that keep the document's words: tab / exotic line-break characters for a space, indented
+    continuation lines, extra trailing newlines"""
+    if not d:
+        return d
+    r = rng.random()
+    cs = list(d)
+    if r < 0.3:
+        idx = [i for i, c in enumerate(cs) if c == " "]
+        if idx:
+            cs[rng.choice(idx)] = rng.choice(EXOTIC_BREAKS + ["\t", " ", "　"])
+    elif r < 0.6:
+        idx = [i for i, c in enumerate(cs) if c == "\n" and i + 1 < len(cs) and cs[i + 1] not in "\n "]
+        if idx:
+            i = rng.choice(idx)
+            cs[i] = "\n" + " " * rng.randint(1, 3)
+    elif r < 0.8:
+        cs.append("\n" * rng.randint(1, 3))
+    else:
+        idx = [i for i, c in enumerate(cs) if c.isalpha()]
+        if idx:
+            cs.insert(rng.choice(idx), rng.choice(EXOTIC_BREAKS))
+    return "".join(cs)
